@@ -36,7 +36,7 @@ pub fn check() -> Check {
         floor_thorough: 100_000,
         rule: "G1: breadth-first closure of the ideal editor's states for command buffers of 0..=10 (quick) / 0..=13 (thorough) bytes over {a, e-acute, bitcoin sign, G-clef} and over lead-byte boundary characters {a, U+07EA, U+0E01, U+10000}; every (state, op) edge - insert of each character, two multi-character inserts (recall path), Backspace, Left, Right, delete-at-cursor, clear - \
                is replayed on a fresh real Editor and text, cursor, len() and every text_range() are compared. G2: random sessions through a whole Cli (as C01; recall and completion replace the model line by the observed one), line and cursor compared after every byte. \
-               Non-trivial = the op acts strictly inside a line containing characters of at least two different encoded lengths, or is a rejected insertion; distinct by (line, cursor, op).",
+               Non-trivial = the op acts strictly inside a line containing characters of at least two different encoded lengths, or is a rejected insertion; distinct by (line, cursor, op). Evaluations count every API call (input byte, application write, prompt change) that was followed by the oracle, plus one per session; a coverage-guided campaign (libFuzzer + ASan, 16 processes, same oracle inside the target) searches the same session space and what it keeps is re-run and classified here.",
         assumptions: &[
             "recall and completion replace the line; what they put there is decided by C10 / C11, the model adopts the observed line",
             "states are built on the real editor by one multi-character insert followed by Left moves",
